@@ -52,7 +52,8 @@ def shape_chunks(draw, shape, zero_p=0.1, max_parts=None):
     array: the separate stratum of DESIGN 4.3) an explicit zero-size chunk is
     inserted on one or two axes."""
     chunks = [draw(axis_chunks(n, max_parts)) for n in shape]
-    if shape and zero_p > 0 and draw(st.integers(0, 99)) < int(zero_p * 100):
+    # (mid-range window: Hypothesis over-samples the end points of integer ranges)
+    if shape and zero_p > 0 and 40 <= draw(st.integers(0, 99)) < 40 + round(zero_p * 100):
         naxes = draw(st.integers(1, min(2, len(shape))))
         for _ in range(naxes):
             ax = draw(st.integers(0, len(shape) - 1))
